@@ -265,6 +265,56 @@ class Gen:
                 return True
         return False
 
+    def wzero(self, name):
+        """body of wzero_T(v): every optional member of v (not following pointers) is nil"""
+        t = self.types[name]
+        ds = []
+        if t['form'] == 'typedef':
+            d = dict(t['decl'])
+            if d['kind'] == 'opt':
+                return 'v.P == nil'
+            if d['kind'] == 'plain' and d['base'] in self.types and self.haslist(d['base']):
+                return 'wzero_%s(v)' % goname(d['base'])
+            return 'true'
+        if t['form'] == 'struct':
+            ds = t['fields']
+        elif t['form'] == 'union':
+            ds = [d for _, d in t['arms']] + ([t['default']] if t['default'] else [])
+        cs = []
+        for d in ds:
+            if d.get('kind') == 'void':
+                continue
+            e = 'v.' + goname(d['name'])
+            if d['kind'] == 'opt':
+                cs.append('%s == nil' % e)
+            elif d['kind'] == 'plain' and d['base'] in self.types and self.haslist(d['base']):
+                cs.append('wzero_%s(%s)' % (goname(d['base']), e))
+        return ' && '.join(cs) or 'true'
+
+    def listnodes(self, name, seen=None):
+        """XDR types whose values a value of this type can point to (the nodes a decoder allocates)"""
+        seen = seen if seen is not None else set()
+        out = []
+        t = self.types[name]
+        ds = []
+        if t['form'] == 'typedef':
+            ds = [t['decl']]
+        elif t['form'] == 'struct':
+            ds = t['fields']
+        elif t['form'] == 'union':
+            ds = [d for _, d in t['arms']] + ([t['default']] if t['default'] else [])
+        for d in ds:
+            if d.get('kind') == 'void' or d['base'] not in self.types:
+                continue
+            if d['kind'] == 'opt' and d['base'] not in out:
+                out.append(d['base'])
+            if d['base'] not in seen:
+                seen.add(d['base'])
+                for m in self.listnodes(d['base'], seen):
+                    if m not in out:
+                        out.append(m)
+        return out
+
     def haswords(self, name, seen=None):
         """does a value of this type contain (transitively) a variable-length array of words
         (rpcgen emits a decoding loop that allocates what the length word says: left out)"""
@@ -296,6 +346,12 @@ class Gen:
         n = self.const(d.get('n'))
         if kind == 'plain':
             return self.plain(base, e, o)
+        if kind == 'opt':
+            # optional member (RFC 4506 4.19): a boolean word, then the value if it is 1
+            g = goname(base)
+            ok = '((%s != nil) <==> be32w(%s) != 0) && (%s != nil ==> wok_%s(*%s, %s + 4))' % (e, o, e, g, e, o)
+            end = 'ite(%s != nil, wend_%s(*%s, %s + 4), %s + 4)' % (e, g, e, o, o)
+            return ('(' + ok + ')', end, '(%s != nil ==> wlim_%s(*%s))' % (e, g, e))
         if kind == 'fixed':
             if base != 'opaque':
                 raise NotImplementedError('fixed array of ' + base)
@@ -330,14 +386,12 @@ class Gen:
         if t['form'] == 'typedef':
             d = t['decl']
             if d['kind'] == 'opt':
-                return None
+                return self.use(d, 'v.P', 'o')  # rpcgen: typedef T *name  ->  type Name struct{ P *T }
             return self.use(d, 'v', 'o')
         if t['form'] == 'struct':
             oks, szs, lims = [], [], []
             off = 'o'
             for f in t['fields']:
-                if f['kind'] == 'opt':
-                    return None
                 ok, end, lim = self.use(f, 'v.' + goname(f['name']), off)
                 oks.append(ok)
                 if lim != 'true':
@@ -399,20 +453,27 @@ class Gen:
         skipped = []
         for name in self.order:
             g = goname(name)
-            if name in self.recursive or self.haslist(name) or self.haswords(name):
+            if self.haswords(name):
                 skipped.append(name)
                 continue
+            islist = name in self.recursive or self.haslist(name)
             r = self.typedefs(name)
             if r is None:
                 skipped.append(name)
                 continue
             ok, sz, lim = r
-            w('//@ opaquefunc wend_%s(v nfstypes.%s, o uint64) = %s' % (g, g, sz))
-            w('//@ opaquefunc wok_%s(v nfstypes.%s, o uint64) = %s' % (g, g, ok))
-            w('//@ opaquefunc wlim_%s(v nfstypes.%s) = %s' % (g, g, lim))
+            w('//@ opaquefunc wend_%s(v nfstypes.%s, o uint64) : uint64 = %s' % (g, g, sz))
+            w('//@ opaquefunc wok_%s(v nfstypes.%s, o uint64) : bool = %s' % (g, g, ok))
+            w('//@ opaquefunc wlim_%s(v nfstypes.%s) : bool = %s' % (g, g, lim))
+            if islist:
+                w('//@ opaquefunc wzero_%s(v nfstypes.%s) : bool = %s' % (g, g, self.wzero(name)))
             w('//@ spec (*%s).Xdr(v, xs)' % g)
             w('//@   props C16')
             w('//@   requires v != nil')
+            if islist:
+                # a decoder fills in the value it is given: optional members it does not find stay as they were
+                w('//@   requires [X-zero-target] !xenc ==> wzero_%s(*v)' % g)
+                w('//@   allocates ' + ', '.join('nfstypes.' + goname(m) for m in self.listnodes(name)))
             w('//@   modifies *v, xpos, xbad')
             w('//@   ensures [X-sticky] old(xbad) ==> xbad && xpos == old(xpos)')
             w('//@   ensures [X-pure] xenc || old(xbad) ==> *v == old(*v)')
@@ -474,11 +535,14 @@ class Gen:
                 for k, pr in enumerate(procs):
                     w('//@   ensures [D-proc-%d] result[%d].Proc == %d && result[%d].Handler == methodvalue("%s_wrapper.%s")' % (pr['num'], k, pr['num'], k, iface, pr['name']))
                 w('')
-        w('// XDR types not under contract (linked lists through optional members, arrays of words): ' + ', '.join(skipped))
+        w('// XDR types not under contract (variable-length arrays of words): ' + ', '.join(skipped))
         return '\n'.join(L) + '\n'
 
 
 def main():
+    global OUT
+    if '--repo' in sys.argv:
+        OUT = os.path.join(sys.argv[sys.argv.index('--repo') + 1], 'nfstypes', 'zz_contracts_verif.go')
     consts, types, order, progs = parse(open(PROT).read())
     g = Gen(consts, types, order, progs)
     text = g.emit()
